@@ -589,11 +589,11 @@ void exec_op(world& w, const json& op)
             if (fired)
                 r["dsame"] = vh::raw_reader{w.conn}.digest() == d0;
         }
-        if (w.want_stmts)
+        if (w.want_stmts && !fired)   // (complete executions only: the discipline is judged on whole calls)
         {
             json st = json::array();
             for (auto& s : shim::stmts())
-                st.push_back({{"k", s.k}, {"ro", s.readonly}, {"rc", s.rc}, {"f", s.faulted}, {"sql", s.sql.substr(0, 120)}});
+                st.push_back({{"k", s.k}, {"ro", s.readonly}, {"rc", s.rc}, {"f", s.faulted}, {"c", s.cls}, {"chg", s.chg}, {"sql", s.sql.substr(0, 120)}});
             r["stmts"] = st;
         }
         if (fired && oc.ok)
